@@ -79,7 +79,7 @@ func leaderCmd(r *rand.Rand, g *kmodel.Gen, n int, bigValues bool) []string {
 }
 
 type scenario struct {
-	initial string // empty, prefix-small, prefix-big, unrelated-small, unrelated-big
+	initial string // empty, prefix-small, prefix-big, unrelated-small, unrelated-big, diverged-same-length
 	faults  []string
 	big     bool
 }
@@ -155,6 +155,40 @@ func runScenario(ctx *core.Ctx, bin string, idx int, sc scenario) {
 		}
 		cut := entries[len(entries)/2+r.Intn(len(entries)/3)].End
 		os.WriteFile(filepath.Join(fdir, "appendonly.aof"), b[:cut], 0o600)
+	case "diverged-same-length":
+		// the leader's log with the ids of its later writes in another letter case: a different
+		// history of exactly the same byte length (what a failover and failback can leave behind)
+		time.Sleep(1100 * time.Millisecond) // background flush
+		b, err := os.ReadFile(leader.AOFPath())
+		if err != nil {
+			ctx.Inconclusive(err.Error())
+			return
+		}
+		entries, boundary, okp := aoflog.Parse(b)
+		if !okp || boundary != len(b) || len(entries) < 10 {
+			ctx.Inconclusive("leader log not usable for a diverged copy")
+			return
+		}
+		var nb []byte
+		changed := 0
+		for i, e := range entries {
+			args := append([]string(nil), e.Args...)
+			if i >= len(entries)/3 && len(args) > 2 && strings.EqualFold(args[0], "set") && args[1] != "marker" {
+				if up := strings.ToUpper(args[2]); up != args[2] {
+					args[2] = up
+					changed++
+				}
+			}
+			nb = append(nb, fmt.Sprintf("*%d\r\n", len(args))...)
+			for _, a := range args {
+				nb = append(nb, fmt.Sprintf("$%d\r\n%s\r\n", len(a), a)...)
+			}
+		}
+		if len(nb) != len(b) || changed == 0 {
+			ctx.Inconclusive("diverged copy does not have the leader log's length")
+			return
+		}
+		os.WriteFile(filepath.Join(fdir, "appendonly.aof"), nb, 0o600)
 	case "unrelated-small", "unrelated-big":
 		u, err := srv.Start(srv.Opts{Bin: bin, Dir: fdir})
 		if err != nil {
@@ -372,6 +406,42 @@ func runScenario(ctx *core.Ctx, bin string, idx int, sc scenario) {
 		}
 		recordAck()
 	}
+	if sc.initial == "diverged-same-length" && len(sc.faults) == 0 {
+		// the leader has been quiescent since before FOLLOW: once the follower reports healthy it
+		// must already be a copy (later leader writes, a FLUSHDB among them, would hide a follower
+		// that kept its own history)
+		dl := time.Now().Add(20 * time.Second)
+		var diff string
+		okSeen := false
+		for time.Now().Before(dl) {
+			c, err := respc.Dial(follower.Addr(), time.Second)
+			if err != nil {
+				time.Sleep(50 * time.Millisecond)
+				continue
+			}
+			c.Timeout = 5 * time.Second
+			rep, err := c.Do("HEALTHZ")
+			c.Close()
+			if err == nil && rep.String() == "+OK" {
+				okSeen = true
+				l0, e1 := dump.Take(leader.Addr(), dump.Opts{})
+				f0, e2 := dump.Take(follower.Addr(), dump.Opts{})
+				if e1 == nil && e2 == nil {
+					if diff = dump.Diff(l0, f0); diff == "" {
+						break
+					}
+				}
+			}
+			time.Sleep(150 * time.Millisecond)
+		}
+		ctx.Eval(1)
+		if okSeen && diff != "" {
+			ctx.Violation("diverged-history-kept", "the follower started on a different history of exactly the leader log's byte length, reports healthy, and 20 s later still differs from its quiescent leader (A=leader B=follower): "+diff, map[string]any{"scenario": sc.key(), "seed": ctx.Seed, "index": idx})
+			close(stopMon)
+			monWG.Wait()
+			return
+		}
+	}
 	writeBatch(5 + r.Intn(10))
 	recordAck()
 	px.Throttle(0, 0)
@@ -468,7 +538,7 @@ func runScenario(ctx *core.Ctx, bin string, idx int, sc scenario) {
 
 // Run is the C06 check.
 func Run(ctx *core.Ctx) {
-	ctx.Rule = "leader and follower are separate processes with a harness TCP proxy in between; the leader receives a generated write history (all write commands, hooks/channels with metas and EX, EVAL/EVALNA scripts, TTLs >= 1000 s, optionally > 512 KiB of values) with a monotone marker object; initial follower states: empty, a true prefix of the leader's log (below/above the 512 KiB checksum window), unrelated data (below/above); fault sequences from {follower restart, follower kill -9, connection dropped, connection cut at a PRNG byte offset of the stream, leader AOFSHRINK, follower SIGSTOP/SIGCONT, stream delivered in slices, leader restart}. Oracles: after the faults stop and the leader is quiescent the follower must report healthy and its API dump must equal the leader's within 25 s; a monitor polls HEALTHZ throughout and, whenever the follower claims healthy, requires its marker to be at least the last marker the leader acknowledged before the follower's latest (re)connect was accepted by the proxy. non-trivial = scenario with a non-empty initial state or >= 1 fault; distinct key = (initial state, fault sequence)"
+	ctx.Rule = "leader and follower are separate processes with a harness TCP proxy in between; the leader receives a generated write history (all write commands, hooks/channels with metas and EX, EVAL/EVALNA scripts, TTLs >= 1000 s, optionally > 512 KiB of values) with a monotone marker object; initial follower states: empty, a true prefix of the leader's log (below/above the 512 KiB checksum window), unrelated data (below/above), a diverged history of exactly the leader log's byte length; fault sequences from {follower restart, follower kill -9, connection dropped, connection cut at a PRNG byte offset of the stream, leader AOFSHRINK, follower SIGSTOP/SIGCONT, stream delivered in slices, leader restart}. Oracles: after the faults stop and the leader is quiescent the follower must report healthy and its API dump must equal the leader's within 25 s; a monitor polls HEALTHZ throughout and, whenever the follower claims healthy, requires its marker to be at least the last marker the leader acknowledged before the follower's latest (re)connect was accepted by the proxy. non-trivial = scenario with a non-empty initial state or >= 1 fault; distinct key = (initial state, fault sequence)"
 	ctx.Assumptions = []string{"the (re)connect instant is taken from the proxy's accept time (start of the latest burst of connections)", "bounded progress: 25 s after the last fault"}
 	bin, err := srv.Build("plain")
 	if err != nil {
@@ -480,7 +550,7 @@ func Run(ctx *core.Ctx) {
 	}
 	defer sink.Close()
 	var scs []scenario
-	inits := []string{"empty", "prefix-small", "unrelated-small", "prefix-big", "unrelated-big"}
+	inits := []string{"empty", "prefix-small", "unrelated-small", "prefix-big", "unrelated-big", "diverged-same-length"}
 	// fixed core list: every initial state, every single fault
 	for _, in := range inits {
 		scs = append(scs, scenario{initial: in, big: strings.HasSuffix(in, "big")})
